@@ -20,6 +20,16 @@ TABLE = {
                 "and pixel bytes unchanged (after an abort or a storage fault: a gap-free prefix), for one and two streams, wrapping rings, "
                 "monitoring clients and write delays",
     },
+    "C06": {
+        "module": "AcqVerif.Props.C06",
+        "theorems": ["AcqVerif.C06.monitor_consumes_the_stream_in_order", "AcqVerif.C06.mapped_region_is_the_next_bytes",
+                     "AcqVerif.C06.flushed_monitor_has_nothing_unread", "AcqVerif.C06.fresh_monitor_sees_only_the_current_run",
+                     "AcqVerif.C06.frames_of_the_current_run", "AcqVerif.C06.stop_flushes_a_registered_monitor", "AcqVerif.Runtime.DMon.micro"],
+        "classes": ["mon", "slowmon", "holdmon", "abortmon", "latemon", "avgmon"],
+        "kinds": ("monitor-", "map-read-failed", "stored-", "camera-delivered", "never-returns", "CRASH"),
+        "what": "a client that maps/unmaps (partially, slowly, holding regions across stop/abort, over several acquisitions) sees consecutive frame "
+                "ids with the right pixels, nothing of a finished acquisition later, map/unmap keep succeeding, and storage is unaffected",
+    },
     "C07": {
         "module": "AcqVerif.Props.C07",
         "theorems": ["AcqVerif.C07.stop_returns_armed_and_clean", "AcqVerif.C07.stop_has_joined", "AcqVerif.C07.start_over_finished_threads",
